@@ -260,6 +260,42 @@ def same_name_dependencies(v, base, tool, standin):
     return n
 
 
+def all_with_package(v, base, tool, standin):
+    """--all together with -p: the two selection flags combined select every package (that is
+    what --all says) or, at the very least, the named one -- never just the package of the
+    working directory."""
+    d = (base / "allp").resolve()
+    for m, ed in (("m1", "2015"), ("m2", "2021")):
+        (d / "ws" / m / "src").mkdir(parents=True)
+        (d / "ws" / m / "Cargo.toml").write_text(
+            f'[package]\nname = "{m}"\nversion = "0.1.0"\nedition = "{ed}"\n')
+        (d / "ws" / m / "src" / "lib.rs").write_text("fn  k( ){}\n")
+    (d / "ws" / "Cargo.toml").write_text('[workspace]\nmembers = ["m1", "m2"]\nresolver = "2"\n')
+    n = 0
+    for flags in (["--all", "-p", "m2"], ["-p", "m2", "--all"]):
+        for cwd in ("ws/m1", "ws"):
+            lg = d / "log.ndjson"
+            if lg.exists():
+                lg.unlink()
+            env = core.run_env({"RUSTFMT": str(standin), "STANDIN_LOG": str(lg), "STANDIN_STATUS": "{}",
+                                "HOME": str(d), "CARGO_TARGET_DIR": str(d / "target")})
+            r = subprocess.run([tool, "fmt"] + flags, cwd=d / cwd, env=env, capture_output=True,
+                               timeout=120)
+            n += 1
+            seen = set()
+            for ln in (lg.read_text().splitlines() if lg.exists() else []):
+                a = json.loads(ln)
+                if "--edition" in a:
+                    seen |= {str(Path(x).resolve().relative_to(d)) for x in a[:a.index("--edition")]}
+            both = {"ws/m1/src/lib.rs", "ws/m2/src/lib.rs"}
+            if seen not in (both, {"ws/m2/src/lib.rs"}) or r.returncode != 0:
+                v.violation(f"allp:{' '.join(flags)}:{cwd}",
+                            f"cargo fmt {' '.join(flags)} in {cwd}: formatted {sorted(seen)} (exit "
+                            f"{r.returncode}); expected every member, or at least the named one",
+                            {"stderr": r.stderr.decode('utf-8', 'replace')[-600:]})
+    return n
+
+
 def key_of(sc):
     return (("" if sc.get("mp", "none") == "none" else f"mp={sc['mp']}:") +
             f"types={sc['types']}:virtual={sc['virtual']}:strategy={sc['strategy']}:"
@@ -302,6 +338,7 @@ def run(tier, seed, replay=None):
         # the option handling (CargoFmtArgs.tla): --check / --message-format / verbosity /
         # informational flags x what every rustfmt invocation does (succeed, fail, killed)
         n_same = same_name_dependencies(v, base, tool, standin)
+        n_same += all_with_package(v, base, tool, standin)
         from . import cfauni
         (base / "args").mkdir()
         arecs = cfauni.observe(base / "args", STANDIN)
